@@ -324,7 +324,7 @@ def compare(els, exp, obs, rt):
                 leaked = [c for c in rt if set(c) - {"output", "rt"}]
                 if leaked:
                     bad.append(("runtime", "static-key-leaked", els[-1]["k"], len(els), "no static key", leaked))
-            if exp["noerr"]:
+            if exp["noerr"] and exact_runtime(els):
                 want = [prune(dec(c)) for c in exp["rt"]]
                 # order and multiplicity of the values belong to C01/C03: compare as sets
                 a = sorted(set(_canon(c) for c in rt))
@@ -332,6 +332,12 @@ def compare(els, exp, obs, rt):
                 if a != b:
                     bad.append(("runtime", "contexts", els[-1]["k"], len(els), want, rt))
     return bad, used_other_key
+
+
+def exact_runtime(els):
+    """Two Cache elements may name the same file and then feed each other (that is C18's
+    subject): with more than one Cache only the no-leak rule is checked on the run-time side."""
+    return sum(1 for e in els if e["k"] == "cache") <= 1
 
 
 def _canon(c):
@@ -379,6 +385,7 @@ def record(els, obs, rt):
         rows.append(row)
     return {"els": els, "obs": rows,
             "ran": isinstance(rt, list),
+            "rtx": exact_runtime(els),
             "rt": [enc(c) for c in rt] if isinstance(rt, list) else [],
             "only": 0}
 
